@@ -256,9 +256,14 @@ def run(ctx):
         # targets: a random subset of the intermediate's indices stays open
         rest = G.random_term(rng, 1, pools, names=["X", "Y", "d"])
         mode = rng.choice(["complete", "complete", "scaled_term", "dropped",
-                           "merged_scaled"])
+                           "merged_scaled", "sign_flipped"])
         if k == 0:
             mode, name = "merged_scaled", "t2_2"
+            t, idx = itmd_tensor(itmds[name], rng, pools)
+        if k == 1:
+            # a long intermediate with one term of opposite sign and equal
+            # magnitude must not be taken for a complete variant
+            mode, name = "sign_flipped", rng.choice(["t2_2", "t1_2"])
             t, idx = itmd_tensor(itmds[name], rng, pools)
         if mode == "merged_scaled":
             # remainder antisymmetric in two indices of the intermediate:
@@ -295,6 +300,9 @@ def run(ctx):
                     if abs(Expr(x).terms[0].prefactor) == big]
             j = rng.choice(cand)
             tl[j] = tl[j] * Rational(3, 2)
+        elif mode == "sign_flipped" and len(tl) > 1:
+            j = rng.randrange(len(tl))
+            tl[j] = -tl[j]
         elif mode == "scaled_term" and len(tl) > 1:
             j = rng.randrange(len(tl))
             tl[j] = tl[j] * rng.choice([2, Rational(1, 2), -1])
